@@ -161,38 +161,39 @@ def check(R, F, P, cfg):
                       (CCBOX0 + "trace", CM + "increment_tracing_counter"), ("<cc::Cc<T> as std::ops::Drop>::drop", CM + "decrement_counter"), ("<weak::Weak<T> as std::ops::Drop>::drop", WCM + "decrement_counter")}
     k = 0
     for (f, bb, ci) in P.call_sites(lambda c_: c_["npath"] in (CM + "increment_counter", WCM + "increment_counter", CM + "decrement_counter", WCM + "decrement_counter", CM + "increment_tracing_counter")):
-        rootf = root_of(P, f)
-        if rootf.npath.startswith((CM, WCM)):
+        if root_of(P, f).npath.startswith((CM, WCM)):
             continue
         k += 1
-        S = Super(P, rootf, opaque=DO - {rootf.npath})
-        for x in [y for y in S.calls_to(ci["npath"]) if y.ctx.fn is f and y.bb == bb]:
-            res = ("ret", ci["npath"], S.args_of(x), "%s:bb%d" % (f.npath, bb))
-            # switches on is_err/is_ok of this result
-            sws = [y for y in S.nodes if y.kind == "switch" and _tests_result(S.switch_expr(y), res) and not _debug_only(y)]
-            if not sws:
-                ok = (rootf.npath, ci["npath"]) in allowed_ignore
-                R.inst("R16.4", "result:%s:%s" % (rootf.npath, short(ci["npath"])), ok, "result of %s in %s is not branched on; %s" % (short(ci["npath"]), rootf.npath, "allow-listed" if ok else "NOT in the allow-list"), where=x.where(), cfg=cfg, nontrivial=not ok)
-                continue
-            for sw in sws:
-                e = S.switch_expr(sw)
-                err_edges = []
-                for (s_, lab) in sw.succ:
-                    if not isinstance(lab, tuple):
-                        continue
-                    is_err_test = "is_err" in fmt(e)
-                    truth = (lab[1] == "otherwise")
-                    if (is_err_test and truth) or (not is_err_test and not truth):
-                        err_edges.append(s_)
-                bad = []
-                for s_ in err_edges:
-                    reach = S.reachable(s_, exclude=("ui", "u"))
-                    if any(S.nodes[i].kind == "return" and S.nodes[i].ctx is S.root_ctx for i in reach):
-                        bad.append("Err edge can return normally")
-                    effs = [S.nodes[i] for i in reach if S.nodes[i].ci is not None and not S.nodes[i].inlined and S.nodes[i] in effect_calls([S.nodes[i]])]
-                    if effs:
-                        bad.append("effects on the Err edge: %s" % [short(y.ci["npath"]) for y in effs[:3]])
-                R.inst("R16.4", "result:%s:%s" % (rootf.npath, short(ci["npath"])), not bad and bool(err_edges), "Err edge of %s in %s: %s" % (short(ci["npath"]), rootf.npath, bad or "diverges with no effect"), where=sw.where(), cfg=cfg)
+        # a private helper holding the call is analysed from the functions that call it (it is expanded there)
+        for rootf in [F.fn(o) for o in sorted(lift_owner(P, f)) if F.fn(o) is not None]:
+          S = Super(P, rootf, opaque=DO - {rootf.npath})
+          for x in [y for y in S.calls_to(ci["npath"]) if y.ctx.fn is f and y.bb == bb]:
+              res = ("ret", ci["npath"], S.args_of(x), "%s:bb%d" % (f.npath, bb))
+              # switches on is_err/is_ok of this result
+              sws = [y for y in S.nodes if y.kind == "switch" and _tests_result(S.switch_expr(y), res) and not _debug_only(y)]
+              if not sws:
+                  ok = (rootf.npath, ci["npath"]) in allowed_ignore
+                  R.inst("R16.4", "result:%s:%s" % (rootf.npath, short(ci["npath"])), ok, "result of %s in %s is not branched on; %s" % (short(ci["npath"]), rootf.npath, "allow-listed" if ok else "NOT in the allow-list"), where=x.where(), cfg=cfg, nontrivial=not ok)
+                  continue
+              for sw in sws:
+                  e = S.switch_expr(sw)
+                  err_edges = []
+                  for (s_, lab) in sw.succ:
+                      if not isinstance(lab, tuple):
+                          continue
+                      is_err_test = "is_err" in fmt(e)
+                      truth = (lab[1] == "otherwise")
+                      if (is_err_test and truth) or (not is_err_test and not truth):
+                          err_edges.append(s_)
+                  bad = []
+                  for s_ in err_edges:
+                      reach = S.reachable(s_, exclude=("ui", "u"))
+                      if any(S.nodes[i].kind == "return" and S.nodes[i].ctx is S.root_ctx for i in reach):
+                          bad.append("Err edge can return normally")
+                      effs = [S.nodes[i] for i in reach if S.nodes[i].ci is not None and not S.nodes[i].inlined and S.nodes[i] in effect_calls([S.nodes[i]])]
+                      if effs:
+                          bad.append("effects on the Err edge: %s" % [short(y.ci["npath"]) for y in effs[:3]])
+                  R.inst("R16.4", "result:%s:%s" % (rootf.npath, short(ci["npath"])), not bad and bool(err_edges), "Err edge of %s in %s: %s" % (short(ci["npath"]), rootf.npath, bad or "diverges with no effect"), where=sw.where(), cfg=cfg)
     R.floor("R16.4", cfg, 3, k)
     for rn, callee in must_check.items():
         f = anchor(F, rn)
